@@ -14,6 +14,9 @@ def run(ctx):
         {"scens": [s for s in wcat.token_scenarios(("file", "process")) if s["name"].endswith(":fail")], "policies": ("FIFO", "LIFO"), "bound": 1 if q else 2},
     ]
     plan.append({"scens": wcat.special_dep_scenarios(failing=True), "policies": ("FIFO", "LIFO"), "bound": 1})
+    plan.append({"scens": wcat.wait_scenarios(), "policies": ("FIFO", "LIFO", "JOBS"), "bound": 1})
+    for pol in ("FIFO", "LIFO"):
+        plan.append({"scens": wcat.jobkill_scenarios(), "policies": (pol,), "kills": {"restart_bound": 0}})
     # a failing job taken back by a restarted experiment (kill at every point, restart at once / after the orphans ended)
     plan.append({"scens": wcat.kill_fail_scenarios(), "policies": ("FIFO",), "kills": {"restart_bound": 0}})
     plan.append({"scens": wcat.kill_fail_scenarios(), "policies": ("JOBS",), "kills": {"restart_bound": 0}})
